@@ -130,6 +130,13 @@ PROPS = {
         "bounded_parts": ["byte_xor element-wise contract: Kani at N in {0, 4}"],
         "not_decided": ["threshold-recombined signatures are equal to the whole-key signature as group elements (C08); the recombination itself is L-VSSS"],
     },
+    "C14": {
+        "units": [gen("C14")],
+        "trusted_base": TB_ALGEBRA + ["H-TRANSCRIPT: the Merlin challenge is an uninterpreted function of the exact (label, message) sequence, the challenge label and the output length", "hash_to_curve into the public-key group (PublicKeyHasher) is uninterpreted",
+                                      "BlsElGamal::seal_scalar_with_proof is NOT verified (closures capturing &mut rng are outside the Verus subset): its contract is assumed", "A-RNG"],
+        "hypotheses": ["X-RO on the transcript hash for the binding statements"],
+        "not_decided": ["proof completeness end to end (it needs the unverified prover seal_scalar_with_proof)", "decryption keys recombined from t-of-n shares (vsss-rs, L-VSSS)"],
+    },
     "C15": {
         "units": [LEAF_FUNCTIONAL_BOTH, gen("C15", props=["lib_bytes.rs", "C15.rs"])],
         "trusted_base": TB_ALGEBRA + ["A-ENC / scalar_le: to_repr/from_repr are inverse on canonical encodings; the all-zero encoding is exactly the zero scalar",
